@@ -259,6 +259,7 @@ zix_copy_file(ZixAllocator* const  allocator,
   st = copy_blocks(src_fd, dst_fd, buffer, buffer_size);
 
   zix_aligned_free(allocator, block);
+  errno = 0; // Any failure so far is in st (the allocator may have set errno)
   return finish_copy(dst_fd, src_fd, st);
 }
 
